@@ -816,3 +816,66 @@ package tcell
 //@   loop 1:
 //@     invariant [tty] !isNil(t.tty)
 //@   modifies t.Mutex, t.wg
+
+// ---------------------------------------------------------------------------
+// C05: events are delivered exactly once, in order; back-pressure, not loss.
+// Channel operations are recorded in a ghost log (send:/recv:/selsend:/selrecv:/select:/close: + channel name).
+// ---------------------------------------------------------------------------
+
+// scanInput hands the decoded events to the application queue in order, blocking (never dropping) until each is
+// taken or the screen is finished.
+//@ func (*tScreen).scanInput
+//@   arith math
+//@   requires bufwf(buf) && buf != nil && keysNonEmpty(t.keycodes) && valsNonNil(t.keycodes) && !isNil(t.decoder) && t.ti != nil && t.cells.w >= 1 && t.cells.h >= 1
+//@   calls [never-drops] call("*select:nonblocking", a) ==> false
+//@   calls [in-order] call("*selsend:eventQ", v) ==> v == evs[rangeindex]
+//@   ensures [decoded-once] calls(collectEventsFromInput) == 1
+//@   loop 1:
+//@     invariant [i] -1 <= rangeindex && rangeindex < len(evs)
+//@     decreases len(evs) - rangeindex
+//@   modifies buf.off, buf.lastRead, buf.buf, t.escaped, t.buttondn, t.Mutex
+
+// PostEvent: nil exactly when the event was queued, ErrEventQFull exactly when it was not.
+//@ func (*baseScreen).PostEvent
+//@   arith math
+//@   requires !isNil(b.screenImpl)
+//@   requires !isNil(ErrEventQFull)
+//@   ensures [exact] isNil(result) == (calls("*selsend:EventQ()") == 1)
+//@   ensures [full] !isNil(result) ==> result == ErrEventQFull
+//@   calls [same-event] call("*selsend:EventQ()", sent) ==> sent == ev
+//@   modifies nothing
+
+// PostEventWait blocks until queued or stopped; never drops.
+//@ func (*baseScreen).PostEventWait
+//@   arith math
+//@   requires !isNil(b.screenImpl)
+//@   calls [never-drops] call("*select:nonblocking", a) ==> false
+//@   calls [same-event] call("*selsend:EventQ()", sent) ==> sent == ev
+//@   modifies nothing
+
+// PollEvent returns exactly the event it received, or nil only because the screen stopped.
+//@ func (*baseScreen).PollEvent
+//@   arith math
+//@   requires !isNil(b.screenImpl)
+//@   calls [blocks] call("*select:nonblocking", a) ==> false
+//@   calls [returns-received] call("*selrecv:EventQ()", got) ==> result == got
+//@   calls [nil-on-stop] call("*selrecv:StopQ()", x) ==> isNil(result)
+//@   modifies nothing
+
+// ChannelEvents forwards every event it takes off the queue, unchanged, and closes ch on every way out.
+//@ func (*baseScreen).ChannelEvents
+//@   arith math
+//@   requires !isNil(b.screenImpl)
+//@   calls [forwards] pair("*selrecv:EventQ()", got, "*selsend:ch", v) ==> v == got
+//@   calls [never-drops] call("*select:nonblocking", a) ==> false
+//@   calls [interruptible] call("send:ch", v) ==> false
+//@   ensures [closes] calls("*close:ch") == 1
+//@   loop 1:
+//@     invariant [run] true
+//@   modifies nothing
+
+// every event the input path constructs is complete: When() can be called on it
+//@ func NewEventFocus
+//@   arith math
+//@   ensures [complete] result != nil && result.EventTime != nil && result.Focused == focused
+//@   modifies nothing
